@@ -15,6 +15,10 @@ def fault_cases():
         "missing-file-yaml": lambda: ({}, ["-i", "yaml", "-m", "Root", "nope.yaml"]),
         "missing-file-ini": lambda: ({}, ["-i", "ini", "-m", "Root", "nope.ini"]),
         "directory-as-file-ini": lambda: ({"dir.ini/x": "1"}, ["-i", "ini", "-m", "Root", "dir.ini"]),
+        # reached through a PATTERN: an entry that exists in the directory but can not be read as a file
+        "pattern-with-dangling-symlink": lambda: ({"part_1.json": json.dumps(GOOD), "part_2.json": ("symlink", "no-such-target.json")},
+                                                  ["-m", "Root", "part_*.json"]),
+        "pattern-with-directory": lambda: ({"part_1.json": json.dumps(GOOD), "part_2.json/inner.txt": "x"}, ["-m", "Root", "part_*.json"]),
         "malformed-json": lambda: ({"bad.json": '{"a": 1,,}'}, ["-m", "Root", "bad.json"]),
         "empty-file": lambda: ({"bad.json": ""}, ["-m", "Root", "bad.json"]),
         "malformed-yaml": lambda: ({"bad.yaml": "a: [1, 2\nb: }"}, ["-i", "yaml", "-m", "Root", "bad.yaml"]),
@@ -68,7 +72,11 @@ def one(case):
     sb = clirun.Sandbox("c17")
     try:
         for n, t in files.items():
-            sb.write(n, t)
+            if isinstance(t, tuple) and t[0] == "symlink":
+                import os
+                os.symlink(t[1], os.path.join(sb.dir, n))
+            else:
+                sb.write(n, t)
         sb.write("ok1.json", json.dumps(GOOD))
         sb.write("ok2.json", json.dumps([{"z": [1, 2]}]))
         good1, good2 = ["-m", "Other", "ok1.json"], ["-m", "Third", "ok2.json"]
